@@ -3,6 +3,7 @@
 -/
 import SonicModel.Lemmas.DomProof
 import SonicModel.Lemmas.MetaPack
+import SonicModel.Lemmas.NodeBound
 namespace Sonic.Thm.C03
 open Sonic Gen Impl Spec
 
@@ -40,5 +41,11 @@ theorem meta_idx_bound_tight :
 def exTree : Json := .obj [([97], .arr [.num 5 6, .obj []]), ([97], .null)]
 example : (({ nodes := [.leaf .null], parent := 0 } : Vis).run (evOf exTree)).map (fun v => (v.nodes.length, v.parent)) =
     some (2, 0) := by decide
+
+/-- **the thread-local node buffer is large enough for every document**: `DocumentVisitor::new`
+    reserves `len / 2 + 2` nodes and `push_node` refuses to grow; a (compact) document of length
+    `len` pushes at most that many nodes — one per value, one per object key, and the header -/
+theorem node_buffer_suffices (t : Spec.RJ) (h : t.WF) : t.nodes + 1 ≤ t.render.length / 2 + 2 :=
+  Spec.node_buffer_suffices t h
 
 end Sonic.Thm.C03
